@@ -72,7 +72,7 @@ func EvalL0(degreeBits int, x, xPowN E) E {
 // VanishingPolyParams: the shape data evalVanishing needs.
 type PlonkShape struct {
 	NumChallenges, NumRoutedWires, QuotientDegreeFactor, NumPartialProducts, DegreeBits int
-	KIs                                                                                []F
+	KIs                                                                                 []F
 }
 
 // EvalVanishingPoly is plonky2's eval_vanishing_poly at zeta.
